@@ -195,7 +195,7 @@ Proof.
   assert (Hext : forall j, a (Ext j) = false) by (intros j; pw).
   unfold step_sv. cbv zeta.
   destruct o as [t x|t x|t x|t|t pos x|t pos x|t pos k x|t pos xs|t pos xs|t pos x|t pos|t f l|t|t k|t k x|t k x|t xs
-                 | |t|t|t|t|t|t pid|t x|t|t|t|t x|t x|t x|t x|t x|t x|t|t|t|t|t|t|t x|t x|t x|t x|t x|t x|t x|t x|t|t xs|k|k x|xs];
+                 | |t|t|t|t|t|t pid|t x|t|t|t|t x|t x|t x|t x|t x|t x|t|t|t|t|t|t|t x|t x|t x|t x|t x|t x|t x|t x|t|t xs|k|k x|xs|t pos xs|t pos xs|t xs|xs|xs];
     try (apply triple_ret; exact Hinv).
   - (* PushBackRv *)
     eapply spec_on with (P := fun n' => n' = S (sel t s) /\ n' <= cap); [exact Hinv| |lia].
@@ -374,6 +374,34 @@ Proof.
     apply spec_scoped_build with (P := fun n' => n' = 0 + length (exts (length xs)) /\ n' <= cap); [intros i; pw|].
     apply spec_insert_range; [intros i; pw|lia| |pw].
     intros src Hsrc. unfold exts in Hsrc. apply in_map_iff in Hsrc. destruct Hsrc as [j [<- Hj]]. apply in_seq in Hj. pw.
+  - (* InsertRangeFwd *)
+    eapply spec_on with (P := fun n' => n' = sel t s + length (exts (length xs)) /\ n' <= cap); [exact Hinv| |lia].
+    apply spec_with_ext; [exact Hext|]. intros a1 H1.
+    apply spec_insert_range_fwd; [intros i; destruct t; pw|destruct t; cbn [sel]; lia| |pw].
+    intros src Hsrc. unfold exts in Hsrc. apply in_map_iff in Hsrc. destruct Hsrc as [j [<- Hj]]. apply in_seq in Hj. pw.
+  - (* MoveInsertRangeFwd *)
+    eapply spec_on with (P := fun n' => n' = sel t s + length (exts (length xs)) /\ n' <= cap); [exact Hinv| |lia].
+    apply spec_with_ext; [exact Hext|]. intros a1 H1.
+    apply spec_move_insert_fwd; [intros i; destruct t; pw|destruct t; cbn [sel]; lia| |pw].
+    intros src Hsrc. unfold exts in Hsrc. apply in_map_iff in Hsrc. destruct Hsrc as [j [<- Hj]]. apply in_seq in Hj. pw.
+  - (* AssignRangeFwd *)
+    eapply spec_on with (P := fun n' => n' = length (exts (length xs)) /\ n' <= cap); [exact Hinv| |lia].
+    apply spec_with_ext; [exact Hext|]. intros a1 H1.
+    apply spec_assign_range_fwd; [intros i; destruct t; pw| |pw].
+    intros src Hsrc. unfold exts in Hsrc. apply in_map_iff in Hsrc. destruct Hsrc as [j [<- Hj]]. apply in_seq in Hj.
+    split; [pw|intros i; discriminate].
+  - (* CtorRangeFwd *)
+    apply spec_discard; [exact Hinv|].
+    apply spec_with_ext; [exact Hext|]. intros a1 H1.
+    apply spec_scoped_build with (P := fun n' => n' = 0 + length (exts (length xs)) /\ n' <= cap); [intros i; pw|].
+    apply spec_insert_range_fwd; [intros i; pw|lia| |pw].
+    intros src Hsrc. unfold exts in Hsrc. apply in_map_iff in Hsrc. destruct Hsrc as [j [<- Hj]]. apply in_seq in Hj. pw.
+  - (* CtorMoveArr *)
+    apply spec_discard; [exact Hinv|].
+    apply spec_with_ext; [exact Hext|]. intros a1 H1.
+    apply spec_scoped_build with (P := fun n' => n' = 0 + length (exts (length xs)) /\ n' <= cap); [intros i; pw|].
+    apply spec_move_insert; [intros i; pw|lia| |pw].
+    intros src Hsrc. unfold exts in Hsrc. apply in_map_iff in Hsrc. destruct Hsrc as [j [<- Hj]]. apply in_seq in Hj. pw.
 Qed.
 
 Lemma step_iv_inv s m o a : inv s a -> triple a (step_iv fl cap s m o) inv.
@@ -382,7 +410,7 @@ Proof.
   assert (Hext : forall j, a (Ext j) = false) by (intros j; pw).
   unfold step_iv. cbv zeta.
   destruct o as [t x|t x|t x|t|t pos x|t pos x|t pos k x|t pos xs|t pos xs|t pos x|t pos|t f l|t|t k|t k x|t k x|t xs
-                 | |t|t|t|t|t|t pid|t x|t|t|t|t x|t x|t x|t x|t x|t x|t|t|t|t|t|t|t x|t x|t x|t x|t x|t x|t x|t x|t|t xs|k|k x|xs];
+                 | |t|t|t|t|t|t pid|t x|t|t|t|t x|t x|t x|t x|t x|t x|t|t|t|t|t|t|t x|t x|t x|t x|t x|t x|t x|t x|t|t xs|k|k x|xs|t pos xs|t pos xs|t xs|xs|xs];
     try (apply triple_ret; exact Hinv).
   - (* PopBack *)
     eapply spec_on with (P := fun n' => n' = sel t s - 1 /\ 0 < sel t s); [exact Hinv| |destruct t; cbn [sel]; lia].
